@@ -1,14 +1,314 @@
 import Model.Util
 /-
-  Model/Dist.lean — (stub) executable model; see DESIGN.md.  Core Lean only.
+  Model/Dist.lean — executable model of the *composition logic* of
+  `agilerl.networks.distributions` (`TorchDistribution`, `EvolvableDistribution`) as used by
+  `StochasticActor`, `PPO.get_action / evaluate_actions` and `IPPO`.
+
+  What is logic here (modelled): which slice of the logit vector parameterises which component
+  (`torch.split(logits, nvec, dim=1)`), where the action mask is applied (before the distributions
+  are built, per split, with the constant −1e8), which component log-probability is selected by
+  which coordinate of the action, that the reported value is the *sum* over components, which
+  pre-squash point the Gaussian is evaluated at when `squash_output=True`
+  (`TorchDistribution.sampled_action`, a cache written by `sample()`), the correction term
+  `− Σ log(1 − a² + 1e-6)` evaluated on the action that is passed in, and what `entropy()` returns.
+
+  What is not logic (parameters, never defaults): `exp/log/tanh/atanh`, softmax normalisation,
+  the network forward pass and the sampler.  Component log-probabilities / entropies are inputs
+  (functions in the generic definitions, numbers supplied by the harness in the line protocol).
+  The only closed formulas evaluated here are rational: the quadratic form of the Gaussian
+  log-density given `σ`, `log σ` and `½·log 2π`, and the argument `1 − a² + ε` of the correction.
 -/
 namespace Dist
 open Util
 
-structure IOState where
-  dummy : Nat := 0
+/-! ### generic composition (any carrier) -/
+section generic
+variable {α : Type}
 
-def step (s : IOState) : List String → IOState × String
+/-- `torch.split(x, sizes, dim=1)` on one row -/
+def splitSizes (xs : List α) : List Nat → List (List α)
+  | [] => []
+  | n :: ns => xs.take n :: splitSizes (xs.drop n) ns
+
+/-- start of split `k` inside the flat logit vector -/
+def offset (nvec : List Nat) (k : Nat) : Nat := (nvec.take k).sum
+
+/-- `apply_action_mask_discrete`: `torch.where(mask, logits, full_like(logits, -1e8))` -/
+def maskLogits (neg : α) (logits : List α) (mask : List Bool) : List α :=
+  List.zipWith (fun l m => if m then l else neg) logits mask
+
+/-- `EvolvableDistribution.apply_mask` for MultiDiscrete / MultiBinary: split mask and logits with
+    the same sizes, mask every split, (then `torch.cat`) -/
+def maskSplit (neg : α) (nvec : List Nat) (logits : List α) (mask : List Bool) : List (List α) :=
+  List.zipWith (maskLogits neg) (splitSizes logits nvec) (splitSizes mask nvec)
+
+/-- `CategoricalHandler.log_prob`: entry `a` of the component's log-probability table
+    (`none`: index outside the support — torch's `validate_args` raises) -/
+def catLogProb (table : List α) (a : Nat) : Option α := table[a]?
+
+variable [Add α] [Zero α]
+
+/-- `MultiCategoricalHandler.log_prob`: `zip(distribution, unbind(action, dim=1))`, stack, sum -/
+def multiCatLogProb (tables : List (List α)) (action : List Nat) : Option α :=
+  (allSome (List.zipWith catLogProb tables action)).map List.sum
+
+/-- MultiDiscrete end to end on one row: flat per-outcome table, split by `nvec`, select, sum -/
+def multiDiscreteLogProb (nvec : List Nat) (flat : List α) (action : List Nat) : Option α :=
+  multiCatLogProb (splitSizes flat nvec) action
+
+/-- `BernoulliHandler.log_prob`: per bit `log p(1)` or `log p(0)`, summed over the bits -/
+def bernLogProb (lp1 lp0 : List α) (bits : List Bool) : α :=
+  (List.zipWith (fun (p : α × α) (b : Bool) => if b then p.1 else p.2) (lp1.zip lp0) bits).sum
+
+/-- `NormalHandler.log_prob`: component `i` evaluated on coordinate `i`, summed (`sum(dim=1)`) -/
+def indepLogProb (comp : List (α → α)) (x : List α) : α :=
+  (List.zipWith (fun f v => f v) comp x).sum
+
+/-- entropy of the composed distribution: sum of the component entropies -/
+def sumEntropy (ents : List α) : α := ents.sum
+
+/-! #### the squashed Gaussian and its cache -/
+
+/-- `TorchDistribution` over a `Normal`: the current per-dimension log-densities, the squash flag
+    and `self.sampled_action` (the pre-squash draw cached by the last `sample()`) -/
+structure TorchDist (α : Type) where
+  comp    : List (α → α)
+  squash  : Bool
+  sampled : Option (List α) := none
+
+/-- `TorchDistribution.sample` with the Gaussian draw `u` made explicit -/
+def TorchDist.sample (d : TorchDist α) (th : α → α) (u : List α) : TorchDist α × List α :=
+  ({ d with sampled := some u }, if d.squash then u.map th else u)
+
+variable [Sub α]
+
+/-- `TorchDistribution.log_prob` **as coded at the snapshot**: with squashing the Gaussian is
+    evaluated at the cached draw, whatever action is passed in; the correction uses the action.
+    `corr a = log(1 − a² + 1e-6)`.  `none`: nothing cached yet (the real code raises). -/
+def TorchDist.logProbCode (d : TorchDist α) (corr : α → α) (a : List α) : Option α :=
+  if d.squash then
+    d.sampled.map (fun u => indepLogProb d.comp u - (a.map corr).sum)
+  else some (indepLogProb d.comp a)
+
+/-- repaired `log_prob`: the cached draw is used only for the action object that `sample()` has
+    just returned (`fresh`), otherwise the pre-image `preA = atanh(clamp(a))` of the action -/
+def TorchDist.logProbFixed (d : TorchDist α) (corr : α → α) (fresh : Bool) (a preA : List α) : α :=
+  if d.squash then
+    let u := match fresh, d.sampled with
+      | true, some u => u
+      | _, _ => preA
+    indepLogProb d.comp u - (a.map corr).sum
+  else indepLogProb d.comp a
+
+/-- `TorchDistribution.entropy`: `None` with squashing, else the summed component entropies -/
+def TorchDist.entropy (d : TorchDist α) (ents : List α) : Option α :=
+  if d.squash then none else some (sumEntropy ents)
+
+/-- `PPO.evaluate_actions` / `IPPO._learn_individual` on one row: a forward pass (which draws a
+    fresh `u'` and overwrites the cache) followed by `action_log_prob(stored action)` -/
+def evalStoredCode (comp : List (α → α)) (corr th : α → α) (u' a : List α) : Option α :=
+  (({ comp := comp, squash := true : TorchDist α }).sample th u').1.logProbCode corr a
+
+def evalStoredFixed (comp : List (α → α)) (corr th : α → α) (u' a preA : List α) : α :=
+  (({ comp := comp, squash := true : TorchDist α }).sample th u').1.logProbFixed corr false a preA
+
+end generic
+
+/-! ### rational instances used by the driver -/
+
+/-- the constant written by `apply_action_mask_discrete` (−1e8 is exact in float32) -/
+def negMask : Rat := -100000000
+
+/-- `Normal.log_prob`: `-((v - loc)**2) / (2*var) - log(scale) - log(sqrt(2π))`, with `scale`,
+    `log scale` and `c = ½ log 2π` supplied -/
+def normalLpQ (mu sigma logSigma c u : Rat) : Rat :=
+  -((u - mu) * (u - mu)) / (2 * (sigma * sigma)) - logSigma - c
+
+/-- `Normal.entropy`: `0.5 + 0.5*log(2π) + log(scale)` -/
+def normalEntQ (logSigma c : Rat) : Rat := 1 / 2 + c + logSigma
+
+/-- argument of the squash correction: `1 - a.pow(2) + 1e-6` -/
+def corrArgQ (eps a : Rat) : Rat := 1 - a * a + eps
+
+/-- is `action` inside the support of the masked categorical(s)?  (valid index, mask true) -/
+def inSupportCat (nvec : List Nat) (mask : List Bool) (action : List Nat) : Bool :=
+  action.length == nvec.length &&
+  (List.zipWith (fun (m : List Bool) a => m.getD a false) (splitSizes mask nvec) action).all id
+
+/-- MultiBinary with a mask: a masked bit has logit −1e8, i.e. must be 0 -/
+def inSupportBits (mask : List Bool) (bits : List Bool) : Bool :=
+  bits.length == mask.length && (List.zipWith (fun m b => m || !b) mask bits).all id
+
+/-! ### line protocol
+
+  Sections of an op are separated by the word `|`.
+
+    mask d|md|mb <nvec…> | <logits…> | <mask 0/1…>   -> masked logits, splits separated by `;`
+    catlp <nvec…> | <flat table…> | <action…>        -> Σ_k table_k[a_k]            (reject: index outside a split / sizes wrong)
+    bern | <lp1…> | <lp0…> | <bits…>                 -> Σ_i (bit_i ? lp1_i : lp0_i)
+    sum | <values…>                                  -> Σ values  (entropy of a composition, Normal components)
+    supp d|md|mb <nvec…> | <mask…> | <action…>       -> 1/0
+    nnew <squash 0/1> <c> | <mu…> | <sigma…> | <logsigma…>   -> ok   (a fresh TorchDistribution over Normal)
+    nsample | <u…>                                   -> ok   (sample(): caches the pre-squash draw)
+    nlogp code | <a…> | <corr…>                      -> log_prob as coded (Gaussian at the cache when squashing)
+    nlogp fixed <fresh 0/1> | <a…> | <pre…> | <corr…> -> repaired log_prob
+    nent                                             -> Σ component entropies, or `none` with squashing
+    corrarg <eps> | <a…>                             -> 1 − a² + eps per coordinate
+    ppoent | <log_probs…>                            -> −mean(log_prob)   (PPO's stand-in entropy with squashing)
+-/
+
+structure IOState where
+  mu       : List Rat := []
+  sigma    : List Rat := []
+  logSigma : List Rat := []
+  c        : Rat := 0
+  squash   : Bool := false
+  sampled  : Option (List Rat) := none
+
+/-- split a word list at the separator `|` -/
+def sections (ws : List String) : List (List String) :=
+  ws.foldr (fun w acc =>
+    if w = "|" then [] :: acc
+    else match acc with
+      | [] => [[w]]
+      | s :: r => (w :: s) :: r) [[]]
+
+def parseBools? (ws : List String) : Option (List Bool) :=
+  allSome (ws.map (fun w => if w = "1" then some true else if w = "0" then some false else none))
+
+def showGroups (g : List (List Rat)) : String := " ; ".intercalate (g.map showRats)
+
+/-- the Gaussian components of the current state as functions -/
+def IOState.comps (s : IOState) : List (Rat → Rat) :=
+  List.zipWith (fun (ms : Rat × Rat) (ls : Rat) => normalLpQ ms.1 ms.2 ls s.c) (s.mu.zip s.sigma) s.logSigma
+
+def IOState.dist (s : IOState) : TorchDist Rat :=
+  { comp := s.comps, squash := s.squash, sampled := s.sampled }
+
+/-- the correction values arrive per coordinate; as a function of the coordinate's value -/
+def corrFn (a cr : List Rat) : Rat → Rat := fun x => ((a.zip cr).lookup x).getD 0
+
+def nvecOf (kind : String) (nv : List Nat) (n : Nat) : Option (List Nat) :=
+  if kind = "d" then (if nv.length = 1 then some nv else none)
+  else if kind = "md" then (if nv.length ≥ 1 then some nv else none)
+  else if kind = "mb" then (if nv = [n] then some nv else none)
+  else none
+
+def step (s : IOState) (ws : List String) : IOState × String :=
+  match ws with
+  | "mask" :: kind :: rest =>
+    match sections rest with
+    | [nv, ls, ms] =>
+      match parseNats? nv, parseRats? ls, parseBools? ms with
+      | some nv, some ls, some ms =>
+        match nvecOf kind nv ls.length with
+        | none => (s, "bad-op")
+        | some nvec =>
+          -- `mask.view(logits.shape)` and `torch.split` raise on a size mismatch
+          if ms.length ≠ ls.length ∨ nvec.sum ≠ ls.length then (s, "reject")
+          else if kind = "d" then (s, showGroups [maskLogits negMask ls ms])
+          else (s, showGroups (maskSplit negMask nvec ls ms))
+      | _, _, _ => (s, "bad-op")
+    | _ => (s, "bad-op")
+  | "catlp" :: rest =>
+    match sections rest with
+    | [nv, tb, ac] =>
+      match parseNats? nv, parseRats? tb, parseNats? ac with
+      | some nvec, some tb, some ac =>
+        if nvec.sum ≠ tb.length then (s, "reject")
+        else match multiDiscreteLogProb nvec tb ac with
+          | some v => (s, showRat v)
+          | none => (s, "reject")
+      | _, _, _ => (s, "bad-op")
+    | _ => (s, "bad-op")
+  | "bern" :: rest =>
+    match sections rest with
+    | [[], l1, l0, bs] =>
+      match parseRats? l1, parseRats? l0, parseBools? bs with
+      | some l1, some l0, some bs =>
+        if l1.length ≠ l0.length ∨ bs.length ≠ l1.length then (s, "reject")
+        else (s, showRat (bernLogProb l1 l0 bs))
+      | _, _, _ => (s, "bad-op")
+    | _ => (s, "bad-op")
+  | "sum" :: rest =>
+    match sections rest with
+    | [[], vs] =>
+      match parseRats? vs with
+      | some vs => (s, showRat (sumEntropy vs))
+      | none => (s, "bad-op")
+    | _ => (s, "bad-op")
+  | "supp" :: kind :: rest =>
+    match sections rest with
+    | [nv, ms, ac] =>
+      match parseNats? nv, parseBools? ms with
+      | some nv, some ms =>
+        match nvecOf kind nv ms.length with
+        | none => (s, "bad-op")
+        | some nvec =>
+          if nvec.sum ≠ ms.length then (s, "reject")
+          else if kind = "mb" then
+            match parseBools? ac with
+            | some bits => (s, showBool (inSupportBits ms bits))
+            | none => (s, "0")
+          else match parseNats? ac with
+            | some ac => (s, showBool (inSupportCat nvec ms ac))
+            | none => (s, "bad-op")
+      | _, _ => (s, "bad-op")
+    | _ => (s, "bad-op")
+  | "nnew" :: sq :: c :: rest =>
+    match sections rest with
+    | [[], mu, sg, lsg] =>
+      match parseBools? [sq], parseRat? c, parseRats? mu, parseRats? sg, parseRats? lsg with
+      | some [sq], some c, some mu, some sg, some lsg =>
+        if sg.length ≠ mu.length ∨ lsg.length ≠ mu.length ∨ sg.any (· = 0) then (s, "reject")
+        else ({ mu := mu, sigma := sg, logSigma := lsg, c := c, squash := sq, sampled := none }, "ok")
+      | _, _, _, _, _ => (s, "bad-op")
+    | _ => (s, "bad-op")
+  | "nsample" :: rest =>
+    match sections rest with
+    | [[], us] =>
+      match parseRats? us with
+      | some us => if us.length ≠ s.mu.length then (s, "reject") else ({ s with sampled := some us }, "ok")
+      | none => (s, "bad-op")
+    | _ => (s, "bad-op")
+  | "nlogp" :: "code" :: rest =>
+    match sections rest with
+    | [[], a, cr] =>
+      match parseRats? a, parseRats? cr with
+      | some a, some cr =>
+        if a.length ≠ s.mu.length ∨ cr.length ≠ a.length then (s, "reject")
+        else match s.dist.logProbCode (corrFn a cr) a with
+          | some v => (s, showRat v)
+          | none => (s, "reject")
+      | _, _ => (s, "bad-op")
+    | _ => (s, "bad-op")
+  | "nlogp" :: "fixed" :: fr :: rest =>
+    match sections rest with
+    | [[], a, pre, cr] =>
+      match parseBools? [fr], parseRats? a, parseRats? pre, parseRats? cr with
+      | some [fr], some a, some pre, some cr =>
+        if a.length ≠ s.mu.length ∨ cr.length ≠ a.length ∨ pre.length ≠ a.length then (s, "reject")
+        else (s, showRat (s.dist.logProbFixed (corrFn a cr) fr a pre))
+      | _, _, _, _ => (s, "bad-op")
+    | _ => (s, "bad-op")
+  | ["nent"] =>
+    match s.dist.entropy (s.logSigma.map (fun l => normalEntQ l s.c)) with
+    | some v => (s, showRat v)
+    | none => (s, "none")
+  | "corrarg" :: eps :: rest =>
+    match sections rest with
+    | [[], a] =>
+      match parseRat? eps, parseRats? a with
+      | some eps, some a => (s, showRats (a.map (corrArgQ eps)))
+      | _, _ => (s, "bad-op")
+    | _ => (s, "bad-op")
+  | "ppoent" :: rest =>
+    match sections rest with
+    | [[], lps] =>
+      match parseRats? lps with
+      | some lps => if lps.length = 0 then (s, "reject") else (s, showRat (-(lps.sum / (lps.length : Rat))))
+      | none => (s, "bad-op")
+    | _ => (s, "bad-op")
   | _ => (s, "bad-op")
 
 end Dist
